@@ -882,15 +882,29 @@ pub mod race {
             pre.push(ApiOp::Flush { force: true });
         }
         let qv = gen_vector(&mut rng, cfg.dim, 777);
-        let k = *rng.pick(&[1usize, 2, 3, 10]);
+        let mut k = *rng.pick(&[1usize, 2, 3, 10]);
+        // a quarter of the programs start with a crowded neighbourhood: 3-14 superseded versions of one document right
+        // next to the query (tombstones that use up the cold tier's over-fetch), everything drained; the writer then
+        // puts a document next to the query, which the cold tier alone may miss while the recent-write tier has it
+        let crowded = rng.chance(1, 4);
+        if crowded {
+            let near = |eps: f32| -> Vec<u32> { bits(&qv.iter().enumerate().map(|(i, x)| x + if i % 2 == 0 { eps } else { -eps }).collect::<Vec<f32>>()) };
+            for _ in 0..rng.range(3, 14) {
+                w += 1;
+                pre.push(ApiOp::Insert { id: n_pre + 5, vec: near(*rng.pick(&[0.0f32, 1e-3, 0.01])), meta: gen_meta(&mut rng, w) });
+            }
+            pre.push(ApiOp::Delete { id: n_pre + 5 });
+            pre.push(ApiOp::Flush { force: true });
+            k = *rng.pick(&[1usize, 1, 2]);
+        }
         let mut writer = Vec::new();
         for _ in 0..rng.range(1, 2) {
             let id = rng.below(n_pre + 1);
             w += 1;
-            let op = match rng.below(10) {
+            let op = match rng.below(if crowded { 5 } else { 10 }) {
                 0..=4 => {
                     // close to the query so that it belongs inside the cached boundary
-                    let eps = *rng.pick(&[0.0f32, 0.01, 0.2]);
+                    let eps = if crowded { *rng.pick(&[0.02f32, 0.05, 0.1]) } else { *rng.pick(&[0.0f32, 0.01, 0.2]) };
                     let v: Vec<f32> = qv.iter().enumerate().map(|(i, x)| x + if i % 2 == 0 { eps } else { -eps }).collect();
                     ApiOp::Insert { id, vec: bits(&v), meta: gen_meta(&mut rng, w) }
                 }
